@@ -648,7 +648,7 @@ def path_conditions(body, target, want, limit=4000, track_consts=False, else_set
             s = None
             if t["k"] == "switch":
                 s = pp_x(xb.expr_of_operand(t["discr"], 12, (bi, "term")))
-                if not want(s):
+                if not want(s) and not (s.startswith(("Ne(", "Le(", "Not(")) and want(canon_bool_atom(s, 0)[0])):
                     s = None
             dcache[bi] = s
         return dcache[bi]
